@@ -359,8 +359,7 @@ func (r *run) loop() loopRet {
 				r.failf("clear|threw", "clear() threw %v", err)
 			}
 		case opIter:
-			c := r.m.NewCursor(int(o.A))
-			_ = c
+			r.m.NewCursor(int(o.A))
 			v, err := r.e.mkIter[r.coll][o.A](r.obj)
 			if err != nil {
 				r.failf("iter|threw", "%s() threw %v", kindNames[o.A], err)
@@ -424,7 +423,6 @@ func (r *run) val(step int) int { return 1000 + step }
 func (r *run) doSet(rep int) {
 	e := r.e
 	d := repDefs[rep]
-	stored := r.storedRep(d.class)
 	val := r.val(r.pc)
 	r.m.Set(int(d.class), rep, val)
 	k := e.rep(rep)
@@ -454,7 +452,6 @@ func (r *run) doSet(rep int) {
 			r.failf("define|threw", "defineProperty(%s) threw %v", d.name, err)
 		}
 	}
-	_ = stored
 }
 
 func (r *run) doDel(rep int) {
